@@ -77,9 +77,13 @@ def apply(model, recs, tf):
                 lines = [pad_line(l, how) for l in lines]
             elif which < len(lines):
                 lines[which] = pad_line(lines[which], how)
-    ins = sorted([t for t in tf if t[0] == "ins"], key=lambda t: -t[1])
+    ins = sorted([t for t in tf if t[0] in ("ins", "bulk")], key=lambda t: -t[1])
     for t in ins:
-        lines.insert(t[1], UNKNOWN[t[2]])
+        if t[0] == "bulk":
+            # many ignorable lines at one place: the sheet grows to several / many KB
+            lines[t[1]:t[1]] = [(UNKNOWN[t[2]] + (" %05d" % k if UNKNOWN[t[2]].strip() else "")) for k in range(t[3])]
+        else:
+            lines.insert(t[1], UNKNOWN[t[2]])
     return lines
 
 
@@ -182,6 +186,16 @@ def run_negative(model, recs, neg):
     if neg[0] == "nofile":
         lines = lines[1:]
         raw = ("\n".join(lines) + "\n").encode("ascii")
+    elif neg[0] == "nofile-long":
+        # no FILE line, and 20 KB of harmless text before the rest
+        lines = ["REM filler line %05d" % k for k in range(900)] + lines[1:]
+        raw = ("\n".join(lines) + "\n").encode("ascii")
+    elif neg[0] == "nonascii-late":
+        # the non-ASCII byte comes after 20 KB of harmless text (before FILE / at the very end)
+        fill = [b"REM filler line %05d" % k for k in range(900)]
+        enc = [l.encode("ascii") for l in lines]
+        raw = b"\n".join((fill + enc + [b"REM caf" + bytes.fromhex(neg[1])]) if neg[2] == "end" else
+                         ([enc[0]] + fill + [b"REM caf" + bytes.fromhex(neg[1])] + enc[1:])) + b"\n"
     else:
         i = neg[1]
         enc = [l.encode("ascii") for l in lines]
@@ -210,8 +224,9 @@ class Check(CheckBase):
             "and on each single line, each of 18 blank/unknown lines (upper, lower and mixed case, one with an unheard-of keyword) at every admissible position (before FILE, anywhere "
             "after the first TRACK line; blank lines also between FILE and the first TRACK); x line ending {LF, CRLF}; all PAIRS of single transformations (quick: sheets "
             "with <=2 tracks and every 5th pair; thorough: all); structure compared with the model; image-level (real "
-            "files, class + ls text) for all single transformations; negative: FILE line removed, non-ASCII byte on each "
-            "line -> not a cue sheet and no exception. non-trivial = transformed text differs from canonical")
+            "files, class + ls text) for all single transformations; 150 / 1500 (thorough also 700 / 6000) copies of an ignorable "
+            "line at every admissible position (sheets of 2 KB .. 90 KB); negative: FILE line removed, non-ASCII byte on each "
+            "line, FILE line missing / non-ASCII byte after 20 KB of harmless text -> not a cue sheet and no exception. non-trivial = transformed text differs from canonical")
     assumptions = ["unknown lines between FILE and the first TRACK are outside the statement and not generated"]
 
     def shards(self):
@@ -220,6 +235,7 @@ class Check(CheckBase):
             out.append({"mode": "single", "sheet": list(sh)})
             out.append({"mode": "image", "sheet": list(sh)})
             out.append({"mode": "negative", "sheet": list(sh)})
+            out.append({"mode": "bulk", "sheet": list(sh)})
             if self.quick and sh[0] > 2:
                 continue
             for part in range(4):
@@ -259,6 +275,26 @@ class Check(CheckBase):
                 ok, klass, detail = run_parse(model, recs, tf)
                 rep.case({"mode": "parse", "sheet": sh, "tf": tf}, ok=ok, klass=klass, nontrivial=True, detail=detail,
                          sig=f"parse:{klass}:{a[0]}+{b[0]}")
+        elif shard["mode"] == "bulk":
+            # long sheets: 150 / 1500 (thorough also 700 / 6000) copies of an ignorable line at every admissible position
+            first_track = next(i for i, r in enumerate(recs) if r[0] == "TRACK")
+            bulk = []
+            for pos in insert_positions(recs):
+                for uk in (0, 8, 11):
+                    for count in ((150, 1500) if self.quick else (150, 700, 1500, 6000)):
+                        bulk.append(["bulk", pos, uk, count])
+            for pos in range(1, first_track + 1):
+                bulk.append(["bulk", pos, 8, 1500])
+            for k, t in enumerate(bulk):
+                ok, klass, detail = run_parse(model, recs, [t])
+                if detail and "lines" in detail:
+                    detail["lines"] = detail["lines"][:3]
+                rep.case({"mode": "parse", "sheet": sh, "tf": [t]}, ok=ok, klass=klass, nontrivial=True, detail=detail,
+                         sig=f"parse:{klass}:bulk")
+                if t[3] >= 1500 and (t[2] == 0 or k % 5 == 0):     # image level (real files): the long ones
+                    ok, klass, detail = run_image(model, recs, [t], sh[3])
+                    rep.case({"mode": "image", "sheet": sh, "tf": [t]}, ok=ok, klass=klass, nontrivial=True, detail=detail,
+                             sig=f"image:{klass}:bulk")
         elif shard["mode"] == "image":
             sel = singles if not self.quick else singles[::4]
             for t in sel:
@@ -266,7 +302,8 @@ class Check(CheckBase):
                 rep.case({"mode": "image", "sheet": sh, "tf": [t]}, ok=ok, klass=klass, nontrivial=True, detail=detail,
                          sig=f"image:{klass}:{t[0]}")
         else:
-            negs = [["nofile"]]
+            negs = [["nofile"], ["nofile-long"], ["nonascii-late", "e9", "end"], ["nonascii-late", "c3a9", "end"],
+                    ["nonascii-late", "e9", "mid"]]
             for i in range(len(recs)):
                 for hx in ("80", "ff", "c3a9"):
                     negs.append(["nonascii", i, hx])
